@@ -349,7 +349,11 @@ where subsetFields : List Field → St → M (List Field × St)
 def dsSubset (idx : Index) (h : Heap) (d : DS) : M (Heap × DS) :=
   match subsetField.subsetFields idx d.fields { heap := h } with
   | .error e => .error e
-  | .ok (fs, s) => .ok (s.heap, { numObs := idx.count, fields := fs })
+  | .ok (fs, s) =>
+    -- `self._num_obs = len(np.arange(self._num_obs)[idx])`
+    match pick idx (List.range d.numObs) with
+    | .error e => .error e
+    | .ok sel => .ok (s.heap, { numObs := sel.length, fields := fs })
 
 /-! ### `extend` -/
 
